@@ -277,7 +277,7 @@ theorem table_linear_of_cap (c : Nat) (hc : c ≤ 36) (mx fuel lvl : Nat) (b : B
   | some x => simp only [TabR] at ht ⊢; omega
 
 /-- Non-vacuity: the cap in the source is such a number. -/
-example : ∃ c, entryPresizeCap = some c ∧ c ≤ 36 := ⟨32, rfl, by decide⟩
+example : ∃ c, entryPresizeCap = some c ∧ c ≤ 36 := by unfold entryPresizeCap; exact ⟨_, rfl, by decide⟩
 
 /-- The linear components hold for every presize cap, `none` included (they do not involve the field table). -/
 theorem cost_linear_any_cap (cap : Option Nat) (mx fuel lvl : Nat) (b : Bytes) :
